@@ -52,6 +52,8 @@ begin
         if Head(script).op = "rec" then
           sock := Append(sock, Head(script).pdus);
           sent := sent \o Ids(BitmapsOf(Head(script).pdus));
+          \* a record may itself carry the PDU that ends the session, behind other PDUs; the connection stays open
+          if \E i \in 1..Len(Head(script).pdus) : Head(script).pdus[i][1] \in {"ult", "bad_rdp", "bad_io"} then ended := TRUE; end if;
         elsif Head(script).mode = "ultimatum" then
           sock := Append(sock, << <<"ult">> >>); sockEnd := "eof"; ended := TRUE;
         elsif Head(script).mode = "notify" then
@@ -163,7 +165,11 @@ S == /\ pc["server"] = "S"
            THEN /\ \/ /\ IF Head(script).op = "rec"
                             THEN /\ sock' = Append(sock, Head(script).pdus)
                                  /\ sent' = sent \o Ids(BitmapsOf(Head(script).pdus))
-                                 /\ UNCHANGED << sockEnd, ended >>
+                                 /\ IF \E i \in 1..Len(Head(script).pdus) : Head(script).pdus[i][1] \in {"ult", "bad_rdp", "bad_io"}
+                                       THEN /\ ended' = TRUE
+                                       ELSE /\ TRUE
+                                            /\ ended' = ended
+                                 /\ UNCHANGED sockEnd
                             ELSE /\ IF Head(script).mode = "ultimatum"
                                        THEN /\ sock' = Append(sock, << <<"ult">> >>)
                                             /\ sockEnd' = "eof"
